@@ -41,7 +41,7 @@ func c22Plans(t *rapid.T, c *caseT) []planT {
 
 // TestC22: query results do not depend on optimisation or strategy.
 func TestC22(t *testing.T) {
-	rec := ev.New("C22", "rapid: database of 2-4 tables (1-6 columns from a shared typed pool; keys incl. composite and empty key, indexes, unique indexes; 0-12 rows of ints/decimals/strings/\"\"/dates/booleans) + 0-2 views, built through admin requests and insert actions; request from a typed grammar (table/view, where, project, remove, rename, extend, summarize, join, leftjoin, semijoin, times, union, intersect, minus, depth <= 4, optional sort). Oracle: own nested-loop evaluator on the query as written, compared as multisets of column->packed value with the engine under Setup(read/update/cursor), ordered reads by index, and Optimize with randomBest/ticostAdj/joinRev and a random legal requirement; Next and Prev. Non-trivial: >= 2 operators incl. a join-like/union-like/summarize operator, non-empty result, >= 2 different strategies chosen across the plans; distinct = query text + database.")
+	rec := ev.New("C22", "rapid: database of 2-4 tables (1-6 columns from a shared typed pool; keys incl. composite and empty key, indexes, unique indexes; 0-12 rows of ints/decimals/strings/\"\"/dates/booleans) + 0-2 views, built through admin requests and insert actions; request from a typed grammar (table/view, where, project, remove, rename, extend, summarize, join, leftjoin, semijoin, times, union, intersect, minus; nominal depth <= 4 plus adapting project/rename nodes and view bodies; optional sort). Oracle: own nested-loop evaluator on the query as written, compared as multisets of column->packed value with the engine under Setup(read/update/cursor), ordered reads by index, and Optimize with randomBest/ticostAdj/joinRev and a random legal requirement; Next and Prev. Non-trivial: >= 2 operators incl. a join-like/union-like/summarize operator, non-empty result, >= 2 different strategies chosen across the plans; distinct = query text + database.")
 	rec.Assumptions = []string{
 		"sortForTest is on (list values and summarize-map output in a defined order; otherwise Go map order)",
 		"expressions are total by construction (typed grammar); \"\" ordered against a number/boolean is excluded (documented stored-encoding difference)",
@@ -98,7 +98,21 @@ func TestC22(t *testing.T) {
 				}
 				if !sameStrings(canonRows(x.cols, got), want) {
 					x.close()
-					if disjointMergeUnderSeq(x.strat) {
+					if strings.Contains(x.strat, "project-none") && strings.Contains(x.strat, "summarize-tbl") {
+						if e, ok := kf.Known("C22", "projectnone-exact-nrows"); ok {
+							rec.Excluded("projectnone-exact-nrows")
+							rec.Known(e.What)
+							return
+						}
+					}
+					if disjointLookupRe.MatchString(x.strat) {
+						if e, ok := kf.Known("C22", "union-disjoint-lookup-probe"); ok {
+							rec.Excluded("union-disjoint-lookup-probe")
+							rec.Known(e.What)
+							return
+						}
+					}
+					if disjointMergeUnderSeq(x.strat) || (disjointMergeRe.MatchString(x.strat) && strings.Contains(x.strat, "union-merge")) {
 						if e, ok := kf.Known("C22", "union-disjoint-merge-order"); ok {
 							rec.Excluded("union-disjoint-merge-order")
 							rec.Known(e.What)
